@@ -798,6 +798,12 @@ func main() {
 	}()
 
 	if run.Replay != "" {
+		var lc layoutCase
+		if hx.LoadReplayCase(run.Replay, &lc) == nil && len(lc.Docs) > 0 {
+			h.replayLayout(lc)
+			run.Finish(h.model)
+			return
+		}
 		var c Case
 		if err := hx.LoadReplayCase(run.Replay, &c); err != nil {
 			fmt.Fprintln(os.Stderr, err)
@@ -888,7 +894,9 @@ func main() {
 	run.Note("exhaustive parts: dense^≤%d, \"·string^≤%d, \"\\u·hex^4·\", \"\"\"·block^≤%d, \"\"\"·indent^≤%d·\"\"\", number^≤%d, lineterm^≤%d, name-boundary^≤%d, ascii^≤2, a·ascii·b, backslash·ascii in both string kinds, \\u·hexedge^4, {,\",#,\"\"\",\"\\,\"\"\"\\}·srcedge^≤3 (%d texts)",
 		run.Scale(3, 4), run.Scale(5, 6), run.Scale(5, 6), run.Scale(7, 9), run.Scale(5, 6), run.Scale(5, 7), run.Scale(4, 5), b.n)
 
-	// 12. random longer texts
+	// 12. layouts: lexeme sequences under two random layouts each (layout.go)
+	h.runLayouts(b, run.Scale(6000, 80000))
+	// 13. random longer texts
 	for i, n := 0, run.Scale(20000, 300000); i < n; i++ {
 		r := run.Rand.Fork()
 		src := randomText(r, run.Scale(14, 30))
@@ -901,7 +909,7 @@ func main() {
 			run.Sample(mkCase(src, mode, "random"))
 		}
 	}
-	// 13. invalid UTF-8
+	// 14. invalid UTF-8
 	for i, n := 0, run.Scale(5000, 60000); i < n; i++ {
 		r := run.Rand.Fork()
 		src := malformed(r)
